@@ -369,7 +369,10 @@ int main(int argc, char **argv) {
   struct U { const char *label; float mn, mx; bool small; };
   const U boxes[] = {{"0.5..1", 0.5f, 1.0f, true},       {"1e-6..2e-6", e6, e6 + e6, true},  {"1000..1001", 1000.f, 1001.f, true},
                      {"1e6..1e6+3", 1e6f, 1000003.f, true}, {"0..1", 0.f, 1.f, false},         {"-1..1", -1.f, 1.f, false},
-                     {"0..1e9", 0.f, 1e9f, false}};
+                     {"0..1e9", 0.f, 1e9f, false},
+                     // extents far below float epsilon (a degenerate-range heuristic must not swallow them)
+                     {"1e-6..1.05e-6", e6, 1.05e-6f, true},  {"2e-6..2.05e-6", 2e-6f, 2.05e-6f, true},
+                     {"1..1+2ulp", 1.0f, 1.00000024f, true}};
   const std::vector<Comp> mixed8 = {{1000.f, 1000.0625f}, {0.5f, 1.0f}, {3.f, 3.25f}};
   const std::vector<Comp> mixed0 = {{7.f, 7.f}, {0.5f, 1.0f}, {3.f, 3.25f}};
   const float constants[] = {0.f, 3.f, -1.f, 1e-6f, 0.1f, 1000.f, 1e6f, 1e9f, -1e9f, 1e-30f, 1e-41f};
